@@ -91,7 +91,7 @@ def show_hir(h, ind=0, out=sys.stdout):
 if __name__ == '__main__':
     d, crate, sub = sys.argv[1:4]
     mode = sys.argv[4] if len(sys.argv) > 4 else 'both'
-    for f in glob.glob(f"{d}/{crate}.*.json"):
+    for f in glob.glob(f"{d}/{crate}.json") + glob.glob(f"{d}/{crate}.*.json"):
         j = json.load(open(f))
         for fn in j['fns']:
             if sub in fn['path']:
